@@ -835,8 +835,9 @@ func (e *verifEnv) oracleC08(op *verifOp, res *verifResult, before, after *verif
 						e.leftover[ki.id] = true
 					}
 				}
-			case tAfter && tBefore && tb.kind != snapshots.KindCommitted:
+			case tAfter && ti.kind != snapshots.KindCommitted && ((tBefore && tb.kind != snapshots.KindCommitted) || target == op.key):
 				// KNOWN finding (see findings/known_findings.txt): the name collides with an uncommitted key
+				// (an existing active/view snapshot, or the very key being prepared)
 				if e.prop == "C08" { // a C08 finding; the C09 run does not report it again
 					e.out.Fail("prepare-exists-target-not-committed",
 						fmt.Sprintf("%s: AlreadyExists reported although target %s is an uncommitted snapshot", e.curOp, target))
@@ -1531,6 +1532,7 @@ func (e *verifEnv) scenarios(hook func(op *verifOp, res verifResult, before, aft
 		&verifOp{name: "prepare", key: "k2", labels: "@ref=a1"},
 		&verifOp{name: "view", key: "v3"},
 		&verifOp{name: "prepare", key: "k4", labels: "@ref=v3"},
+		&verifOp{name: "prepare", key: "k5", labels: "@ref=k5"},
 		&verifOp{name: "close"},
 	)
 }
